@@ -251,29 +251,13 @@ Proof.
   unfold shard_keys. destruct (has_live sh m); [apply ssort_SSorted|constructor].
 Qed.
 
-(** No selected shard serves dropped series from a stale tag-value cache. *)
-Definition no_ghosts (shs : list shard) : Prop := forall sh, In sh shs -> sh_ghost sh = [].
-
-Lemma is_univ_no_ghosts shs : no_ghosts shs -> is_univ shs = is_live shs.
-Proof.
-  intro H. unfold is_univ, is_live. f_equal. induction shs as [|sh r IH]; cbn; [reflexivity|].
-  rewrite (H sh (or_introl eq_refl)), app_nil_r, IH; [reflexivity|].
-  intros sh' Hs. apply H. right; exact Hs.
-Qed.
-
-Lemma alive_live shs s : In s (is_live shs) -> alive shs s = true.
-Proof. intro H. unfold alive. apply mem_In. exact H. Qed.
-
 (** The merged index is consistent with the live series (its listed values are a superset). *)
-Lemma is_index_ok shs : no_ghosts shs -> index_ok (is_live shs) (is_index shs).
+Lemma is_index_ok shs : index_ok (is_live shs) (is_index shs).
 Proof.
-  intro Hng. pose proof (is_univ_no_ghosts shs Hng) as Hu.
   split.
-  - intros n. unfold den, is_index; cbn [ix_meas norm]. rewrite Hu. apply filter_ext_in.
-    intros s Hs. rewrite (alive_live shs s Hs). apply andb_true_r.
-  - intros n k. unfold den, is_index; cbn [ix_key norm]. rewrite Hu. apply filter_ext_in.
-    intros s Hs. rewrite (alive_live shs s Hs). apply andb_true_r.
-  - intros n k v. unfold den, is_index; cbn [ix_val norm]. rewrite Hu. reflexivity.
+  - intros n; reflexivity.
+  - intros n k; reflexivity.
+  - intros n k v; reflexivity.
   - intros n k H s Hs Hm. unfold is_index in H; cbn [ix_vals] in H.
     destruct (tag_get (s_tags s) k) as [v|] eqn:T; [|reflexivity].
     pose proof (is_vals_complete shs n k s v Hs Hm T) as Hin.
@@ -318,13 +302,13 @@ Definition tagvals_of (k : string) (ss : list series) : list string :=
   ssort (flat_map (fun s => match tag_get (s_tags s) k with Some v => [v] | None => [] end) ss).
 
 Theorem key_values_filter_exact shs rm a m keys e :
-  no_ghosts shs -> wf (is_live shs) -> tag_only N e = true ->
+  wf (is_live shs) -> tag_only N e = true ->
   key_values shs rm a m keys (Some e) =
   map (fun k => tagvals_of k (filter (auth_ok a)
                    (filter (fun s => is_meas m s && eval N rm m e s) (is_live shs)))) keys.
 Proof.
-  intros Hng Hwf Ht. unfold key_values. rewrite (is_univ_no_ghosts shs Hng).
-  pose proof (series_by_expr_den N rm (is_live shs) (is_index shs) (is_index_ok shs Hng) Hwf m e Ht) as H.
+  intros Hwf Ht. unfold key_values.
+  pose proof (series_by_expr_den N rm (is_live shs) (is_index shs) (is_index_ok shs) Hwf m e Ht) as H.
   unfold den in H. destruct (series_by_expr N rm (is_live shs) (is_index shs) m e) as [ss|]; cbn in H.
   - rewrite H. reflexivity.
   - rewrite <- H. reflexivity.
@@ -339,13 +323,13 @@ Proof.
 Qed.
 
 Theorem values_filter_exact_sorted_nodup shs rm a m keys e :
-  no_ghosts shs -> wf (is_live shs) -> tag_only N e = true ->
+  wf (is_live shs) -> tag_only N e = true ->
   Forall2 (fun k vs => SSorted vs /\ NoDup vs /\
              forall v, In v vs <-> exists s, In s (is_live shs) /\ s_name s = m /\ auth_ok a s = true /\
                                              eval N rm m e s = true /\ tag_get (s_tags s) k = Some v)
           keys (key_values shs rm a m keys (Some e)).
 Proof.
-  intros Hng Hwf Ht. rewrite (key_values_filter_exact shs rm a m keys e Hng Hwf Ht).
+  intros Hwf Ht. rewrite (key_values_filter_exact shs rm a m keys e Hwf Ht).
   induction keys as [|k keys IH]; cbn; constructor; [|exact IH].
   split; [apply ssort_SSorted|]. split; [apply SSorted_NoDup, ssort_SSorted|].
   intro v. rewrite tagvals_of_In. split.
@@ -358,13 +342,12 @@ Qed.
 
 (** ---- listings under a fine-grained authorizer: exact (no stale names) ---- *)
 Theorem values_fine_auth_exact shs rm f m keys :
-  no_ghosts shs ->
   Forall2 (fun k vs => SSorted vs /\ NoDup vs /\
              forall v, In v vs <-> exists s, In s (is_live shs) /\ s_name s = m /\ f s = true /\
                                              tag_get (s_tags s) k = Some v)
           keys (key_values shs rm (Some f) m keys None).
 Proof.
-  intro Hng. unfold key_values. rewrite (is_univ_no_ghosts shs Hng).
+  unfold key_values.
   induction keys as [|k keys IH]; cbn; constructor; [|exact IH].
   pose proof (SSorted_filter (fun v => existsb (fun s => is_meas m s && has_val k v s && f s) (is_live shs))
                _ (is_vals_SSorted shs m k)) as S.
@@ -404,7 +387,7 @@ Definition w_s (n : string) (t : tags) : series := {| s_name := n; s_tags := t |
 (** One shard: m,k1=a and m,k2=a were deleted, m,k1=b lives. *)
 Definition w_shard : shard :=
   {| sh_all := [w_s "m" [("k1","a")]; w_s "m" [("k1","b")]; w_s "m" [("k2","a")]];
-     sh_dead := [w_s "m" [("k1","a")]; w_s "m" [("k2","a")]]; sh_ghost := [] |}.
+     sh_dead := [w_s "m" [("k1","a")]; w_s "m" [("k2","a")]] |}.
 Definition w_rm : N -> string -> bool := fun _ _ => false.
 
 Lemma w_values_stale :
@@ -433,20 +416,19 @@ Proof. cbv zeta. repeat split; vm_compute; reflexivity. Qed.
 (** SHOW MEASUREMENTS WHERE a AND b intersects NAME sets: m is listed although no single
     series has both tags (InfluxQL's documented measurement-level meaning; observation). *)
 Lemma w_names_and_is_measurement_level :
-  let sh := {| sh_all := [w_s "m" [("k1","a")]; w_s "m" [("k2","b")]]; sh_dead := []; sh_ghost := [] |} in
+  let sh := {| sh_all := [w_s "m" [("k1","a")]; w_s "m" [("k2","b")]]; sh_dead := [] |} in
   measurement_names [sh] w_rm None (Some (And (Eq "k1" "a") (Eq "k2" "b"))) = Some ["m"]
   /\ spec_names [sh] w_rm None (Some (And (Eq "k1" "a") (Eq "k2" "b"))) = [].
 Proof. cbv zeta. split; vm_compute; reflexivity. Qed.
 
-(** The stale tag-value cache: shard A dropped n,k1=a (it lives on in a shard that is not
-    selected); a fine authorizer that allows every series still gets k1=a from shard A. *)
-Definition w_ghost_shard : shard :=
-  {| sh_all := [w_s "n" [("k1","a")]; w_s "n" [("k1","b")]]; sh_dead := [w_s "n" [("k1","a")]];
-     sh_ghost := [w_s "n" [("k1","a")]] |}.
-Lemma w_values_ghost :
+(** A series dropped from one shard while it lives on in another (formerly served from the stale
+    tag-value cache, fixed): the shard that dropped n,k1=a no longer returns it. *)
+Definition w_dropped_shard : shard :=
+  {| sh_all := [w_s "n" [("k1","a")]; w_s "n" [("k1","b")]]; sh_dead := [w_s "n" [("k1","a")]] |}.
+Lemma w_values_after_drop :
   let all := Some (fun _ : series => true) in
-  tag_values [w_ghost_shard] w_rm all None (KEq "k1") None = Some [("n", [("k1","a"); ("k1","b")])]
-  /\ spec_values [w_ghost_shard] w_rm all None (KEq "k1") None = [("n", [("k1","b")])]
-  /\ tag_values [w_ghost_shard] w_rm all None (KEq "k1") (Some (Eq "k1" "a")) = Some [("n", [("k1","a")])]
-  /\ spec_values [w_ghost_shard] w_rm all None (KEq "k1") (Some (Eq "k1" "a")) = [].
+  tag_values [w_dropped_shard] w_rm all None (KEq "k1") None = Some [("n", [("k1","b")])]
+  /\ spec_values [w_dropped_shard] w_rm all None (KEq "k1") None = [("n", [("k1","b")])]
+  /\ tag_values [w_dropped_shard] w_rm all None (KEq "k1") (Some (Eq "k1" "a")) = Some []
+  /\ spec_values [w_dropped_shard] w_rm all None (KEq "k1") (Some (Eq "k1" "a")) = [].
 Proof. cbv zeta. repeat split; vm_compute; reflexivity. Qed.
